@@ -79,7 +79,9 @@ def _find_starting_node(meta_molecule):
     otherwise return first node in list of nodes.
     """
     for node in meta_molecule.nodes:
-        if "build" not in meta_molecule.nodes[node]:
+        # every node carries the build flag; a node has coordinates
+        # when it is not to be built and a position is stored for it
+        if not meta_molecule.nodes[node].get("build", True) and "position" in meta_molecule.nodes[node]:
             return node
     return next(iter(meta_molecule.nodes()))
 
